@@ -105,6 +105,15 @@ impl TypeSpace {
                 self.ids().contains_key(self.structs()[d]) && self.ids()[self.structs()[d]].details == d
     }
 
+    /// The by-name index is exact: every named entry is indexed under its own name at its own
+    /// identifier. This implies that no two identifiers carry entries of the same name, i.e.
+    /// "the rendered output never contains two definitions of one name" at the level of the
+    /// type space. Claimed as *preserved* by every function under contract.
+    pub open spec fn names_exact(&self) -> bool {
+        forall|k: TypeId| #[trigger] self.ids().contains_key(k) && self.ids()[k].is_named() ==>
+            self.names().contains_key(self.ids()[k].spec_name()) && self.names()[self.ids()[k].spec_name()] == k
+    }
+
     pub open spec fn same_state(&self, other: &TypeSpace) -> bool {
         &&& self.next_id == other.next_id
         &&& self.ids() == other.ids()
